@@ -47,7 +47,7 @@ theorem and_mask_ne_zero (hw : 0 < w) (x : BitVec w) (i : Nat) :
 
 theorem get_eq_bit (hw : 0 < w) (a : Words w) (i : Nat) : get a i = bit a i := by
   unfold get bit
-  cases a[i / w]? <;> simp [and_mask_ne_zero hw]
+  cases a[i / w]? <;> simp [bitTest, and_mask_ne_zero hw]
 
 theorem div_mod_eq {i j : Nat} (h1 : i / w = j / w) (h2 : i % w = j % w) : i = j := by
   rw [← Nat.div_add_mod i w, ← Nat.div_add_mod j w, h1, h2]
